@@ -48,7 +48,17 @@ def gen_case(ctx, rng, i, tag='random'):
     ops.append(['wait'])
     ops.append(['enqueue', [1], {}])
     fault = None
-    if rng.random() < 0.4:
+    if rng.random() < 0.2:
+        # directed family: the stream is closed with results still outstanding and the consumer is descheduled inside the very
+        # next_result() / results_iter() call during which the worker produces its last result, ends the stream and exits
+        ops = [['enqueue', [copy.deepcopy(rng.choice(ATOMS)) for _ in range(nd)], {}] for _ in range(rng.randrange(1, 4))]
+        ops.append(['close'])
+        for _ in range(rng.randrange(1, 4)):
+            ops.append(rng.choice([['next'], ['iter', rng.randrange(1, 4)]]))
+        ops.append(['wait'])
+        ops.append(['enqueue', [1], {}])
+        fault = {'kind': 'stall', 'any_thread': True, 'occ': rng.randrange(1, 9), 'duration': 1.0, 'qualname': 'PersistentWorker.next_result'}
+    elif rng.random() < 0.4:
         # a slow caller: the consuming / producing caller thread is descheduled at one line boundary inside the API call, long
         # enough for the worker to make arbitrary progress (finish, deliver, exit) in between two of its statements
         fault = {'kind': 'stall', 'any_thread': True, 'occ': rng.randrange(1, 16), 'duration': rng.choice([0.2, 1.0]),
